@@ -304,6 +304,29 @@ set_option maxRecDepth 100000 in
     every operator, both function-pointer tables, every function's allocator). -/
 theorem overloads_release_with_their_family : overloadsWiredCorrectly = true := by decide
 
+/-! ## the memory-report plugin's allocators (CppUTestExt) -/
+
+/-- `setGlobalMemoryReportAllocators` / `removeGlobalMemoryReportAllocators` as regenerated: each statement stays inside one
+    family (member, getter, setter, restored member) and each family is handled once -/
+theorem report_allocators_wired_correctly : reportWiringOk = true := by decide
+
+/-- identity: after the post-test action the three current allocators are exactly the ones that were current before the
+    pre-test action, whatever they were -/
+theorem report_post_restores_current (r : ReportAllocs) (c : Current) :
+    reportPost (reportPre r c).1 (reportPre r c).2 = c := by
+  cases c; cases r
+  simp [reportPost, reportPre, Gen.LeakDetector.reportInstall, Gen.LeakDetector.reportRemove, installStep, removeStep,
+    ReportAllocs.get, ReportAllocs.set, Current.byGetter, Current.bySetter, Allocator.rewrap, Allocator.real, Allocator.id]
+
+/-- while installed, a report allocator stands for the family of the allocator it took over from (it is compared as its
+    actual allocator: `wrapper_transparent`) -/
+theorem report_allocators_keep_the_family (r : ReportAllocs) (c : Current) :
+    family (reportPre r c).2.newA = family c.newA ∧ family (reportPre r c).2.newArrayA = family c.newArrayA ∧
+    family (reportPre r c).2.mallocA = family c.mallocA := by
+  cases c; cases r
+  simp [reportPre, Gen.LeakDetector.reportInstall, installStep, ReportAllocs.get, ReportAllocs.set, Current.byGetter,
+    Current.bySetter, Allocator.rewrap, family, Allocator.actual]
+
 /-- the constants the proofs rely on: three guard bytes `B A S`, poison `0xCD` -/
 theorem guard_constants :
     Gen.LeakDetector.guardSize = 3 ∧ guardPattern = [0x42, 0x41, 0x53] ∧ Gen.LeakDetector.poisonByte = 0xCD ∧
